@@ -34,14 +34,22 @@ RULE = ("Boxes are built by construction from (magnitude 1e-8..1e8, offset class
         "round-tripped over ALL its indices in one case (counted as inner evaluations); roundtrip_all_n enumerates every n of "
         "the tier range on 14 fixed boxes for both kinds. Points: inside, nodes +-3 ulp, cell midpoints +-1 ulp, box bounds "
         "+-3 ulp, outside, far outside. Non-trivial = kappa >= 1e3 or n >= 50 or a midpoint query (maps); shape with d >= 2 "
-        "(grid_flat); a list option (prep_opts, reject); duplicates or >= 5 samples (cdf); distinct by SHA-1 of the case.")
+        "(grid_flat); a list option (prep_opts, reject); duplicates or >= 5 samples (cdf); distinct by SHA-1 of the case. "
+        "index_dtypes: index arrays spelled as int8..uint64 / float64 arrays / lists (single sample also as a list of NumPy "
+        "scalars), sizes spelled as int / float / NumPy integer scalar / narrow integer array / list of NumPy scalars / "
+        "float32-64 array, three width classes: n in 2..300 with ALL indices the dtype can hold, n in 8000..70000 and n in "
+        "2**30..2**32 with indices around 0, n/2, n-1, the top of the dtype and a half / a quarter of it; non-trivial = twice "
+        "the largest index (or twice n-1) is not representable in the narrow dtype it was passed in.")
 TOLERANCES = ("round trip: exact; node in box / end node: 8 (uni), 16 (cheb) ulp(M); node position vs independent float "
               "reference: 16 / 32 ulp(M); arbitrary point: exists x' within 2 ulp(M) with |I - t(x')| <= 0.5 + 4 eps (n-1) "
               "(uni, Fraction) / 0.5 + 8 eps (n-1) with 8 eps slack on the arccos argument (cheb); poi_scale: 4 eps |r| "
               "(uni), ulp(M)/w + 4 eps |r| (cheb), 8 eps (|x||a'-b'| + |a b'| + |b a'|)/(b-a) + 4 eps |r| (custom limits, "
               "abs-majorant of the library formula), results always inside the target interval, exact bound when the "
               "unclipped value is beyond it by more than the tolerance; option forms: identical bits; single vs batch: "
-              "identical bits (uni, poi_scale), 4 ulp(M) (cheb nodes: np.cos on a different array shape); cdf: 4 eps")
+              "identical bits (uni, poi_scale), 4 ulp(M) (cheb nodes: np.cos on a different array shape); cdf: 4 eps; index / size "
+              "dtype spellings vs the int64 / Python-int spelling: identical bits (uni nodes, all indices), 4 ulp(M) (cheb nodes), "
+              "plus the 16 / 32 ulp(M) node reference in Python int / float arithmetic; index dtype of poi_to_ind: integer "
+              "with max >= n - 1")
 ASSUMPTIONS = [
     "resolution precondition (b-a)/(n-1) >= 2**12 ulp(max(|a|,|b|)); for kind='cheb' additionally "
     "(b-a)/2*(1-cos(pi/(n-1))) >= 2**12 ulp(max(|a|,|b|)) (smallest Chebyshev cell); built in by widening the box",
@@ -49,6 +57,11 @@ ASSUMPTIONS = [
     "documented option types only: int/float scalars, lists, 1-D ndarrays",
     "grid_flat returns [samples, d] (what func_full passes to ind_to_poi), not the [d, samples] of its docstring",
     "cdf_getter: finite 1-D sample, finite query points",
+    "index_dtypes: every index / size is exactly representable in the dtype it is passed in; float index arrays are float64 "
+    "(float32 / float16 index arrays are outside the documented 'multi-indices' and lose precision on the Chebyshev grid); "
+    "NumPy integer scalars as n are asserted for ind_to_poi only (poi_to_ind raises IndexError on them for a single point or "
+    "d >= 2 - observed, an accepted call must answer correctly); for n >= 2**30 on the Chebyshev grid the smallest cell is "
+    "below the resolution precondition, so only the node oracles (no round trip) are asserted there",
 ]
 
 EPS = float(np.finfo(float).eps)
@@ -860,7 +873,241 @@ def prop_repeat(case, ctx):
     ctx.check(all(np.array_equal(o, s1[0]) for o in s1), "poi_scale: repeated identical calls give different points")
 
 
+# ------------------------------------------------------------------------------------------- index / size dtypes and spellings
+
+INT_DT = ["int8", "uint8", "int16", "uint16", "int32", "uint32", "int64", "uint64"]
+I_SPELL = INT_DT + ["float64", "list"]
+N_FAMILIES = ["int", "float", "scalar", "array", "list", "list_np", "farray"]
+W_PREF = {"w8": ["int8", "uint8"], "w16": ["int16", "uint16"], "w32": ["int32", "uint32"]}
+W_SIZES = {
+    "w8": [33, 64, 65, 66, 100, 127, 128, 129, 130, 200, 255, 256, 257, 300],
+    "w16": [8193, 16384, 16385, 16386, 20000, 32767, 32768, 32769, 32770, 40000, 65535, 65536, 65537],
+    "w32": [2 ** 30, 2 ** 30 + 1, 2 ** 30 + 2, 2 ** 31 - 1, 2 ** 31, 2 ** 31 + 1, 3 * 10 ** 9, 2 ** 32 - 1, 2 ** 32, 2 ** 32 + 1],
+}
+W_RANGE = {"w8": (2, 300), "w16": (8000, 70000), "w32": (2 ** 30 - 4, 2 ** 32 + 4)}
+
+
+def dt_cap(name):
+    """Largest integer every value up to which the spelling holds exactly."""
+    if name in INT_DT:
+        return min(int(np.iinfo(name).max), 2 ** 53)
+    if name == "float32":
+        return 2 ** 24
+    return 2 ** 53
+
+
+def spell_index(I64, idt):
+    if idt == "list":
+        return I64.tolist()
+    out = I64.astype(idt)
+    if not np.array_equal(out.astype(object), I64.astype(object)):
+        raise AssertionError("index array does not fit its dtype: " + idt)
+    return out
+
+
+def spell_size(n, nsp):
+    """Grid sizes (list of equal-or-not Python ints) in the spelling nsp = family[:dtype]."""
+    fam, _, dt = nsp.partition(":")
+    if fam in ("int", "float", "scalar") and any(v != n[0] for v in n):
+        raise AssertionError("scalar size spelling needs equal sizes")
+    if dt and max(n) > dt_cap(dt):
+        raise AssertionError("size does not fit its dtype: " + nsp)
+    if fam == "int":
+        return int(n[0])
+    if fam == "float":
+        return float(n[0])
+    if fam == "scalar":
+        return np.dtype(dt).type(n[0])
+    if fam in ("array", "farray"):
+        return np.array(n, dtype=dt)
+    if fam == "list_np":
+        return [np.dtype(dt).type(v) for v in n]
+    return [int(v) for v in n]
+
+
+@st.composite
+def size_spelling(draw, n, same):
+    fams = [f for f in N_FAMILIES if same or f not in ("int", "float", "scalar")]
+    fam = draw(st.sampled_from(fams))
+    if fam in ("scalar", "array", "list_np"):
+        fit = [t for t in INT_DT if dt_cap(t) >= max(n)]
+        narrow = fit[:2]                                    # the narrowest signed / unsigned types that hold n
+        return fam + ":" + draw(st.sampled_from(narrow + fit))
+    if fam == "farray":
+        fit = [t for t in ("float32", "float64") if dt_cap(t) >= max(n)]
+        return fam + ":" + draw(st.sampled_from(fit))
+    return fam
+
+
+@st.composite
+def dtype_cases(draw, tier):
+    wc = draw(st.sampled_from(["w8", "w8", "w16", "w16", "w32"]))
+    kind = draw(st.sampled_from(["cheb", "uni"]))
+    d = draw(st.integers(1, 3))
+    same = draw(st.booleans())
+    idt = draw(st.sampled_from(W_PREF[wc] * 3 + I_SPELL))
+    cap = dt_cap(idt)
+    pre = not (wc == "w32" and kind == "cheb")              # the smallest Chebyshev cell is not resolvable for n ~ 2**31
+    cls, a, b, n = [], [], [], []
+    for k in range(1 if same else d):
+        c, ak, bk = draw(raw_boxes())
+        nk = draw(st.one_of(st.sampled_from(W_SIZES[wc]), st.integers(*W_RANGE[wc])))
+        if pre:
+            ak, bk = widen(ak, bk, nk, kind)
+        cls.append(c), a.append(ak), b.append(bk), n.append(nk)
+    if same:
+        cls, a, b, n = cls * d, a * d, b * d, n * d
+    cols = []
+    for k in range(d):
+        top = min(n[k] - 1, cap)
+        if wc == "w8":
+            col = list(range(top + 1))
+        else:
+            pts = {0, 1, n[k] // 2, n[k] // 2 + 1}
+            for base in (top, n[k] - 1, cap // 4, cap // 2, cap, 2 ** 14, 2 ** 15, 2 ** 16, 2 ** 30, 2 ** 31, 2 ** 32):
+                pts.update(base + j for j in range(-4, 5))
+            pts.update(draw(st.integers(0, top)) for _ in range(6))
+            col = sorted(p for p in pts if 0 <= p <= top)
+        cols.append(col)
+    m = max(len(c) for c in cols)
+    I = [[cols[k][min(i, len(cols[k]) - 1)] for k in range(d)] for i in range(m)]
+    return {"wc": wc, "kind": kind, "a": a, "b": b, "n": n, "idt": idt, "pre": pre, "I": I, "cls": cls,
+            "nsp": draw(size_spelling(n, same)), "nsp2": draw(size_spelling(n, same)),
+            "row": draw(st.integers(0, m - 1)), "row_np_list": draw(st.booleans())}
+
+
+def prop_dtypes(case, ctx):
+    """The dtype / spelling of the index array and of the grid sizes does not matter: every spelling gives the nodes of the
+    plain int64 spelling (bit for bit on the uniform grid, 4 ulp(M) on the Chebyshev grid, the module's single-vs-batch
+    tolerance), these are the nodes of their indices (independent reference in Python int / float arithmetic), they round-trip
+    to an integer index array wide enough for n - 1, and the caller's arrays are left alone."""
+    kind, a, b, n, idt, pre = case["kind"], case["a"], case["b"], case["n"], case["idt"], case["pre"]
+    d = len(a)
+    if pre:
+        for k in range(d):
+            require_pre(a[k], b[k], n[k], kind)
+    I64 = np.array(case["I"], dtype=np.int64)
+    m = I64.shape[0]
+    if I64.min() < 0 or np.any(I64.max(axis=0) > np.array(n, dtype=object) - 1):
+        raise AssertionError("index outside the grid")
+    Iarg = spell_index(I64, idt)
+    narg = spell_size(n, case["nsp"])
+    narg2 = spell_size(n, case["nsp2"])
+    U = np.array([ulp(scale_of(a[k], b[k])) for k in range(d)])
+    info = dict(kind=kind, index_dtype=idt, n_spelling=case["nsp"], n=n)
+
+    def keep(v):
+        return v.copy() if isinstance(v, np.ndarray) else None
+
+    def untouched(v, v0, what):
+        if v0 is not None:
+            ctx.check(v.dtype == v0.dtype and np.array_equal(v, v0), what + ": an array passed by the caller was modified", **info)
+
+    R = ctx.lib(teneva.ind_to_poi, I64, list(a), list(b), [int(v) for v in n], kind)
+    ctx.check(is_float_array(R) and R.shape == (m, d), "ind_to_poi: result is not a float array [samples, d]")
+    I0, n0 = keep(Iarg), keep(narg)
+    X = ctx.lib(teneva.ind_to_poi, Iarg, list(a), list(b), narg, kind)
+    untouched(Iarg, I0, "ind_to_poi (index array)")
+    untouched(narg, n0, "ind_to_poi (size array)")
+    ctx.check(is_float_array(X) and X.dtype == R.dtype and X.shape == (m, d),
+              "ind_to_poi: result is not a float64 array [samples, d] for this spelling of the indices / sizes",
+              got=repr(getattr(X, "dtype", None)), shape=repr(getattr(X, "shape", None)), **info)
+    ctx.check(bool(np.all(np.isfinite(X))), "ind_to_poi: non-finite node", **info)
+    D = np.abs(X - R)
+    tolK = np.zeros(d) if kind == "uni" else 4 * U
+    if not bool(np.all(D <= tolK[None, :])):
+        r, k = [int(v[0]) for v in np.nonzero(D > tolK[None, :])]
+        ctx.check(False, "ind_to_poi: the node depends on the dtype / spelling of the indices or sizes", dim=k, index=int(I64[r, k]),
+                  got=float(X[r, k]), int64_spelling=float(R[r, k]), a=a[k], b=b[k], **info)
+
+    # the nodes of these indices (Python integer / float arithmetic, no array dtypes involved), the box and its ends
+    for k in range(d):
+        u = U[k]
+        ktol = 16.0 if kind == "uni" else 32.0
+        slack = (8.0 if kind == "uni" else 16.0) * u
+        nk = n[k]
+        mid, w = (a[k] + b[k]) / 2, (b[k] - a[k]) / 2
+        for r in range(m):
+            i = int(I64[r, k])
+            if r and i == int(I64[r - 1, k]):
+                continue
+            if kind == "uni":
+                ref = a[k] + (i * (b[k] - a[k])) / (nk - 1)
+            else:
+                ref = mid + w * math.sin(math.pi * (nk - 1 - 2 * i) / (2 * (nk - 1)))
+            x = float(X[r, k])
+            ctx.check(abs(x - ref) <= ktol * u, "node is not the grid node of its index", dim=k, index=i, got=x, ref=ref,
+                      tol=ktol * u, a=a[k], b=b[k], **info)
+            ctx.check(a[k] - slack <= x <= b[k] + slack, "node outside the box", dim=k, index=i, got=x, a=a[k], b=b[k], **info)
+            if i == 0 or i == nk - 1:
+                want = (a[k] if i == 0 else b[k]) if kind == "uni" else (b[k] if i == 0 else a[k])
+                ctx.check(abs(x - want) <= slack, "index 0 / n-1 is not mapped to the documented end of the box", dim=k,
+                          index=i, got=x, want=want, **info)
+    ctx.inner(int(m * d))
+
+    # one sample: a row of the narrow array, or a list of NumPy scalars of that dtype
+    r = case["row"] % m
+    if idt == "list":
+        row = Iarg[r]
+    elif case["row_np_list"]:
+        row = [np.dtype(idt).type(v) for v in I64[r]]
+    else:
+        row = Iarg[r]
+    x1 = ctx.lib(teneva.ind_to_poi, row, list(a), list(b), narg, kind)
+    ctx.check(is_float_array(x1) and x1.shape == (d,), "ind_to_poi(single): result is not a float vector of length d", **info)
+    ctx.check(bool(np.all(np.abs(x1 - R[r]) <= tolK)), "ind_to_poi(single): the node depends on the dtype / spelling of the indices or sizes",
+              row=r, index=I64[r].tolist(), got=x1, int64_spelling=R[r], **info)
+
+    # back to indices: sizes in the second spelling
+    fam2 = case["nsp2"].partition(":")[0]
+    info2 = dict(kind=kind, n_spelling=case["nsp2"], n=n)
+    if fam2 == "scalar":
+        # NumPy integer scalars are not among the documented size types of poi_to_ind (it indexes the prepared sizes with a mask
+        # of the shape of X); observed only - but an accepted call must answer correctly
+        try:
+            J = teneva.poi_to_ind(R, list(a), list(b), narg2, kind)
+        except Exception:   # noqa: BLE001
+            ctx.label("poi_to_ind_numpy_scalar_n:raised")
+            J = None
+        else:
+            ctx.label("poi_to_ind_numpy_scalar_n:accepted")
+    else:
+        n0 = keep(narg2)
+        J = ctx.lib(teneva.poi_to_ind, R, list(a), list(b), narg2, kind)
+        untouched(narg2, n0, "poi_to_ind (size array)")
+    if J is not None:
+        ok = isinstance(J, np.ndarray) and J.dtype.kind in "iu" and J.shape == (m, d)
+        ctx.check(ok, "poi_to_ind: result is not an integer array [samples, d]", got=repr(getattr(J, "dtype", None)), **info2)
+        ctx.check(int(np.iinfo(J.dtype).max) >= max(n) - 1, "poi_to_ind: the index dtype cannot hold n - 1", got=repr(J.dtype), **info2)
+        Jref = ctx.lib(teneva.poi_to_ind, R, list(a), list(b), [int(v) for v in n], kind)
+        if not np.array_equal(J.astype(object), Jref.astype(object)):
+            rr, k = [int(v[0]) for v in np.nonzero(J.astype(object) != Jref.astype(object))]
+            ctx.check(False, "poi_to_ind: the index depends on the dtype / spelling of the sizes", dim=k, point=float(R[rr, k]),
+                      got=int(J[rr, k]), int_spelling=int(Jref[rr, k]), **info2)
+        if pre:
+            if not np.array_equal(J.astype(object), I64.astype(object)):
+                rr, k = [int(v[0]) for v in np.nonzero(J.astype(object) != I64.astype(object))]
+                ctx.check(False, "poi_to_ind(ind_to_poi(i)) != i", dim=k, a=a[k], b=b[k], index=int(I64[rr, k]), back=int(J[rr, k]),
+                          point=float(R[rr, k]), **info2)
+            # ... and from the nodes computed from the narrow spelling
+            J2 = ctx.lib(teneva.poi_to_ind, X, list(a), list(b), [int(v) for v in n], kind)
+            if not (isinstance(J2, np.ndarray) and J2.shape == I64.shape and np.array_equal(J2.astype(object), I64.astype(object))):
+                rr, k = [int(v[0]) for v in np.nonzero(np.asarray(J2).astype(object) != I64.astype(object))]
+                ctx.check(False, "poi_to_ind(ind_to_poi(i)) != i for this index dtype", dim=k, a=a[k], b=b[k], index=int(I64[rr, k]),
+                          back=int(J2[rr, k]), point=float(X[rr, k]), **info)
+
+    wraps = idt in INT_DT and 2 * int(I64.max()) > dt_cap(idt)
+    fam, _, ndt = case["nsp"].partition(":")
+    nwraps = ndt in INT_DT and 2 * (max(n) - 1) > dt_cap(ndt)
+    ctx.label("kind:" + kind, "wc:" + case["wc"], "idt:" + idt, "nsp:" + case["nsp"], "nsp2:" + case["nsp2"], "d:%d" % d)
+    ctx.label("2I_exceeds_index_dtype" if wraps else "2I_fits", "2(n-1)_exceeds_size_dtype" if nwraps else "2(n-1)_fits",
+              "precondition" if pre else "no_roundtrip")
+    ctx.nontrivial(bool(wraps or nwraps))
+
+
+
 SUBCHECKS = [
+    Sub("index_dtypes", prop_dtypes, strategy=dtype_cases, quick=100, thorough=1200),
     Sub("repeat_calls", prop_repeat, strategy=form_cases, quick=60, thorough=600),
     Sub("roundtrip", prop_roundtrip, strategy=roundtrip_cases, quick=150, thorough=2500),
     Sub("roundtrip_all_n", prop_roundtrip, enumerate=all_n_cases, exhaustive=True),
